@@ -145,7 +145,8 @@ CLAIMED = {
                   "through h*N; the linear symbol of each concrete stepper equals the generic symbol with the equivalent coefficient list (D<=3). The hand-written symbol model is compared with "
                   "the real _build_linear_operator of every class at every stored mode in exact rational arithmetic. The super().__init__ chains of all Normalized* / Difficulty* constructors are "
                   "re-translated from the source on every run (harness/translate/wiring.py, closed over stepper/generic) and proved to be: Normalized = General on the unit domain with unit step, "
-                  "Difficulty = Normalized after the extract_* conversion, simple difficulty = `order` zeros then the value.",
+                  "Difficulty = Normalized after the extract_* conversion, simple difficulty = `order` zeros then the value; `_build_nonlinear_fun` of every stepper class is re-translated as well "
+                  "(harness/translate/buildnl.py) and each specific stepper proved to build the same nonlinear-function configuration as its generic counterpart.",
              note="The scaling of the built-in single-channel convection and gradient-norm terms with 1/L (beta_1 = b dt/L, beta_2 = b dt/L^2) is proved at term level (Nonlin/Scales.v) and at tableau level (h*N); the multi-channel and vorticity forms are checked on the real code by the witness "
                   "(general vs normalized vs difficulty steppers, rescalings, orders 0-4). Empty-tuple IndexError of reduce/extract is totalised in the model.",
              technique="Rocq proof (field identities, list induction) on AST-translated conversion functions + exact-rational symbol correspondence", design="§4 C13"),
